@@ -90,3 +90,22 @@ def cases(tier, seed, ctx=None):
             reqs.append([n, [] if sp is None else [[b"Range", sp]]])
             metas.append([8, 0, cnt])
         yield ("fsm", [tree, b"@BASE@/root", reqs, ver, metas], "long-history-few-descriptors")
+    # the same directory listed again by the same handler after the file system changed (entries added and removed): the document
+    # root itself (empty path, "."), and a subdirectory
+    for j in range(12 if tier == "quick" else 120):
+        sub = rng.choice([b"", b"", b"d/"])
+        names0 = [(b"a.txt", 0), (b"k", 1)] if rng.chance(1, 2) else [(b"z.bin", 0)]
+        added = [(b"b&w.txt", 0), (b"later", 1)][: rng.range(1, 2)]
+        removed = [names0[0]] if rng.chance(1, 2) else []
+        def ent(n, isd): return [b"root/" + sub + n + (b"/k" if isd else b""), 0, b"c"]
+        tree = ([[b"root/d", 1, b""]] if sub else []) + [ent(n, isd) for n, isd in names0] + [[b"root/other/x", 0, b"x"]]
+        def listing(names):
+            ents = [[n, isd] for n, isd in names]
+            if not sub:
+                ents += [[b"other", 1]]
+            return [8, 1, sorted(ents)]
+        path = rng.choice([b"", b".", b"./"]) if not sub else rng.choice([b"d", b"d/"])
+        after = [x for x in names0 if x not in removed] + added
+        reqs = [[path, []], [1, [ent(n, isd) for n, isd in added], [b"root/" + sub + n for n, isd in removed if not isd]], [path, []], [path, []]]
+        metas = [listing(names0), [0], listing(after), listing(after)]
+        yield ("fsm", [tree, b"@BASE@/root", reqs, ver, metas], "listing-after-change")
